@@ -28,7 +28,7 @@ ASSUMPTIONS = ["C01's generator and the gap guard", "TimingData / NoteData as re
 MONITORS = ["result_content", "timing_equal", "notes_equal", "unmodified", "no_sharing", "second_call_same", "reload", "reload_autodetect", "negative_refused"]
 REQUIRED = ["template_none", "template_blank", "template_sparse", "template_with_charts", "template_empty",
             "chart_template_empty", "chart_template_sparse", "animations_alias", "ssc_only_key_in_source", "version_key_in_source",
-            "negative_bpm_or_stop", "source_with_charts", "delays_or_warps"]
+            "negative_bpm_or_stop", "source_with_charts", "delays_or_warps", "zero_length_stop", "chart_template_empty_timing_keys"]
 
 SSC_ONLY = ["VERSION", "ORIGIN", "LABELS", "MUSICLENGTH", "LASTSECONDHINT", "PREVIEWVID", "JACKET", "CDIMAGE", "DISCIMAGE", "PREVIEW",
             "COMBOS", "SPEEDS", "SCROLLS", "FAKES", "WARPS", "TIMESIGNATURES"]
@@ -52,6 +52,8 @@ def timing_ops(rng, negative):
         out = []
         for i in range(n):
             v = rng.uniform(lo, hi)
+            if not neg and lo < 50 and rng.random() < 0.15:
+                v = 0.0  # a zero-length stop / delay is well-formed and not negative
             if neg and i == n - 1:
                 v = -v
             out.append(f"{k / 48:.3f}={v:.3f}")
@@ -85,7 +87,7 @@ def cases(ctx):
         case["ops"] += timing_ops(rng, negative) + extra
         case["negative"] = negative
         case["template"] = rng.choice(["none", "none", "blank", "sparse", "with_charts", "empty"])
-        case["chart_template"] = rng.choice(["none", "none", "blank", "sparse", "empty", "timing"])
+        case["chart_template"] = rng.choice(["none", "none", "blank", "sparse", "empty", "timing", "empty_timing_keys"])
         case["seed"] = rng.getrandbits(32)
         yield case
 
@@ -143,6 +145,12 @@ def make_templates(case):
         ct = SSCChart.blank()
         ct["BPMS"] = "0.000=999.000"
         ct.move_to_end("NOTES")
+    elif c_ == "empty_timing_keys":
+        ct = SSCChart.blank()
+        ct["STOPS"] = ""
+        ct["DELAYS"] = ""
+        ct["WARPS"] = ""
+        ct.move_to_end("NOTES")
     return st, ct
 
 
@@ -175,6 +183,10 @@ def check(ctx, case):
         ctx.feat("source_with_charts")
     if sm.get("DELAYS") or sm.get("WARPS"):
         ctx.feat("delays_or_warps")
+    if "=0.000" in (sm.get("STOPS") or "") and not case["negative"]:
+        ctx.feat("zero_length_stop")
+    if case["chart_template"] == "empty_timing_keys":
+        ctx.feat("chart_template_empty_timing_keys")
     sm_before = copy.deepcopy(sm)
     src_state0 = E.real_state(sm, "sm")
     st_state0 = ssc_state(st) if st is not None else None
